@@ -47,4 +47,178 @@ theorem allB_imp2 {α : Type} (p q r : α → Bool) (vs : List α)
 theorem allB_false_of_head {α : Type} (r : α → Bool) (v : α) (vs : List α) (h : r v = false) :
     allB r (v :: vs) = false := by simp [allB, h]
 
+theorem fits_scalar (t : CqlTy) (s : Scalar) (b : Bytes) :
+    fits t (.scalar s b) = (match t with
+      | .native n => s.serNatives.contains n
+      | _ => false) := by
+  rw [fits]; simp only [strip, Bool.not_false, Bool.true_or, Bool.true_and]
+
+theorem fits_vec (t : CqlTy) (vs : List RVal) :
+    fits t (.vec vs) = (match t with
+      | .list elt => allB (fun v => fits elt v) vs
+      | .set elt => allB (fun v => fits elt v) vs
+      | .vector elt dim => decide (vs.length = dim) && allB (fun v => fits elt v) vs
+      | _ => false) := by
+  rw [fits]; simp only [strip, Bool.not_false, Bool.true_or, Bool.true_and]
+
+theorem fits_set (t : CqlTy) (vs : List RVal) :
+    fits t (.set vs) = (match t with
+      | .list elt => allB (fun v => fits elt v) vs
+      | .set elt => allB (fun v => fits elt v) vs
+      | _ => false) := by
+  rw [fits]; simp only [strip, Bool.not_false, Bool.true_or, Bool.true_and]
+
+theorem fits_map (t : CqlTy) (kvs : List (RVal × RVal)) :
+    fits t (.map kvs) = (match t with
+      | .map kt vt => allB (fun kv => fits kt kv.1 && fits vt kv.2) kvs
+      | _ => false) := by
+  rw [fits]; simp only [strip, Bool.not_false, Bool.true_or, Bool.true_and]
+
+theorem fits_tuple (t : CqlTy) (fs : List RVal) :
+    fits t (.tuple fs) = (match t with
+      | .tuple ts => decide (fs.length ≤ ts.length) && fitsTuple ts fs
+      | _ => false) := by
+  rw [fits]; simp only [strip, Bool.not_false, Bool.true_or, Bool.true_and]
+
+theorem dims_vec (t : CqlTy) (vs : List RVal) :
+    dimsOk t (.vec vs) = (match t with
+      | .list elt => allB (fun v => dimsOk elt v) vs
+      | .set elt => allB (fun v => dimsOk elt v) vs
+      | .vector elt dim => decide (vs.length = dim) && allB (fun v => dimsOk elt v) vs
+      | _ => true) := by
+  rw [dimsOk]; simp only [strip]
+
+theorem dims_set (t : CqlTy) (vs : List RVal) :
+    dimsOk t (.set vs) = (match t with
+      | .list elt => allB (fun v => dimsOk elt v) vs
+      | .set elt => allB (fun v => dimsOk elt v) vs
+      | _ => true) := by
+  rw [dimsOk]; simp only [strip]
+
+theorem dims_map (t : CqlTy) (kvs : List (RVal × RVal)) :
+    dimsOk t (.map kvs) = (match t with
+      | .map kt vt => allB (fun kv => dimsOk kt kv.1 && dimsOk vt kv.2) kvs
+      | _ => true) := by
+  rw [dimsOk]; simp only [strip]
+
+theorem dims_tuple (t : CqlTy) (fs : List RVal) :
+    dimsOk t (.tuple fs) = (match t with
+      | .tuple ts => dimsTuple ts fs
+      | _ => true) := by
+  rw [dimsOk]; simp only [strip]
+
+theorem hasTypes_length : ∀ (cs : List Carrier) (fs : List RVal), hasTypes cs fs = true → fs.length = cs.length
+  | [], [], _ => rfl
+  | [], _ :: _, h => by simp [hasTypes] at h
+  | _ :: _, [], h => by simp [hasTypes] at h
+  | c :: cs, f :: fs, h => by
+    simp only [hasTypes, Bool.and_eq_true] at h
+    simp [hasTypes_length cs fs h.2]
+
+mutual
+/-- A value of a carrier type that `accepts` the column type passes every type / shape check of `ser`
+(vector dimensions permitting). -/
+theorem accepts_fits : ∀ (c : Carrier) (t : CqlTy) (x : RVal), accepts c t = true → hasType c x = true →
+    noDyn c = true → dimsOk t x = true → fits t x = true
+  | .scalar s, t, x, ha, ht, _, _ => by
+    cases x <;> simp [hasType] at ht
+    subst ht
+    rw [fits_scalar]; rw [accepts] at ha; exact ha
+  | .unset, t, x, _, ht, _, _ => by
+    cases x <;> simp [hasType] at ht
+    exact fits_unset t
+  | .opt c, t, x, ha, ht, hn, hd => by
+    rw [accepts] at ha; rw [noDyn] at hn
+    cases x <;> simp [hasType] at ht
+    · exact fits_none t
+    · rw [fits_some]; rw [dims_some] at hd; exact accepts_fits c t _ ha ht hn hd
+  | .maybeUnset c, t, x, ha, ht, hn, hd => by
+    rw [accepts] at ha; rw [noDyn] at hn
+    cases x <;> simp [hasType] at ht
+    · exact fits_muUnset t
+    · rw [fits_muSet]; rw [dims_muSet] at hd; exact accepts_fits c t _ ha ht hn hd
+  | .maybeEmpty c, t, x, ha, ht, hn, hd => by
+    rw [accepts] at ha; rw [noDyn] at hn
+    simp only [Bool.and_eq_true] at ha
+    cases x <;> simp [hasType] at ht
+    · rw [fits_meEmpty]; exact ha.1
+    · rw [fits_meValue, ha.1]; rw [dims_meValue] at hd
+      simpa using accepts_fits c t _ ha.2 ht hn hd
+  | .vec c, t, x, ha, ht, hn, hd => by
+    rw [noDyn] at hn
+    cases x <;> simp [hasType] at ht
+    rename_i vs
+    rw [fits_vec]; rw [dims_vec] at hd
+    cases t <;> simp only [accepts] at ha hd ⊢ <;> try (exact absurd ha (by simp))
+    · exact allB_imp2 _ _ _ vs (fun v _ h1 h2 => accepts_fits c _ v ha h1 hn h2) ht hd
+    · exact allB_imp2 _ _ _ vs (fun v _ h1 h2 => accepts_fits c _ v ha h1 hn h2) ht hd
+    · simp only [Bool.and_eq_true] at hd ⊢
+      exact ⟨hd.1, allB_imp2 _ _ _ vs (fun v _ h1 h2 => accepts_fits c _ v ha h1 hn h2) ht hd.2⟩
+  | .hashSet c, t, x, ha, ht, hn, hd => by
+    rw [noDyn] at hn
+    cases x <;> simp [hasType] at ht
+    rename_i vs
+    rw [fits_set]; rw [dims_set] at hd
+    cases t <;> simp only [accepts] at ha hd ⊢ <;> try (exact absurd ha (by simp))
+    · exact allB_imp2 _ _ _ vs (fun v _ h1 h2 => accepts_fits c _ v ha h1 hn h2) ht hd
+    · exact allB_imp2 _ _ _ vs (fun v _ h1 h2 => accepts_fits c _ v ha h1 hn h2) ht hd
+  | .btreeSet c, t, x, ha, ht, hn, hd => by
+    rw [noDyn] at hn
+    cases x <;> simp [hasType] at ht
+    rename_i vs
+    rw [fits_set]; rw [dims_set] at hd
+    cases t <;> simp only [accepts] at ha hd ⊢ <;> try (exact absurd ha (by simp))
+    · exact allB_imp2 _ _ _ vs (fun v _ h1 h2 => accepts_fits c _ v ha h1 hn h2) ht hd
+    · exact allB_imp2 _ _ _ vs (fun v _ h1 h2 => accepts_fits c _ v ha h1 hn h2) ht hd
+  | .hashMap k v, t, x, ha, ht, hn, hd => by
+    rw [noDyn] at hn
+    simp only [Bool.and_eq_true] at hn
+    cases x <;> simp [hasType] at ht
+    rename_i kvs
+    rw [fits_map]; rw [dims_map] at hd
+    cases t <;> simp only [accepts] at ha hd ⊢ <;> try (exact absurd ha (by simp))
+    simp only [Bool.and_eq_true] at ha
+    refine allB_imp2 (fun kv => hasType k kv.1 && hasType v kv.2) _ _ kvs (fun kv _ h1 h2 => ?_) ht hd
+    simp only [Bool.and_eq_true] at h1 h2 ⊢
+    exact ⟨accepts_fits k _ kv.1 ha.1 h1.1 hn.1 h2.1, accepts_fits v _ kv.2 ha.2 h1.2 hn.2 h2.2⟩
+  | .btreeMap k v, t, x, ha, ht, hn, hd => by
+    rw [noDyn] at hn
+    simp only [Bool.and_eq_true] at hn
+    cases x <;> simp [hasType] at ht
+    rename_i kvs
+    rw [fits_map]; rw [dims_map] at hd
+    cases t <;> simp only [accepts] at ha hd ⊢ <;> try (exact absurd ha (by simp))
+    simp only [Bool.and_eq_true] at ha
+    refine allB_imp2 (fun kv => hasType k kv.1 && hasType v kv.2) _ _ kvs (fun kv _ h1 h2 => ?_) ht hd
+    simp only [Bool.and_eq_true] at h1 h2 ⊢
+    exact ⟨accepts_fits k _ kv.1 ha.1 h1.1 hn.1 h2.1, accepts_fits v _ kv.2 ha.2 h1.2 hn.2 h2.2⟩
+  | .tuple cs, t, x, ha, ht, hn, hd => by
+    rw [noDyn] at hn
+    cases x <;> simp [hasType] at ht
+    rename_i fs
+    rw [fits_tuple]; rw [dims_tuple] at hd
+    cases t <;> simp only [accepts] at ha hd ⊢ <;> try (exact absurd ha (by simp))
+    rename_i ts
+    simp only [Bool.and_eq_true, decide_eq_true_eq] at ha ⊢
+    have hl := hasTypes_length cs fs ht
+    exact ⟨by omega, acceptsZip_fits cs ts fs ha.2 ht hn hd⟩
+  | .dyn, _, _, _, _, hn, _ => by simp [noDyn] at hn
+  | .listIter _, _, _, _, ht, _, _ => by simp [hasType] at ht
+  | .vecIter _, _, _, _, ht, _, _ => by simp [hasType] at ht
+  | .mapIter _ _, _, _, _, ht, _, _ => by simp [hasType] at ht
+  | .udtIter, _, _, _, ht, _, _ => by simp [hasType] at ht
+  | .raw, _, _, _, ht, _, _ => by simp [hasType] at ht
+theorem acceptsZip_fits : ∀ (cs : List Carrier) (ts : List CqlTy) (fs : List RVal), acceptsZip cs ts = true →
+    hasTypes cs fs = true → noDynList cs = true → dimsTuple ts fs = true → fitsTuple ts fs = true
+  | [], ts, fs, _, ht, _, _ => by
+    cases fs with
+    | nil => cases ts <;> simp [fitsTuple]
+    | cons _ _ => simp [hasTypes] at ht
+  | c :: cs, ts, [], _, _, _, _ => by cases ts <;> simp [fitsTuple]
+  | c :: cs, [], f :: fs, _, _, _, _ => by simp [fitsTuple]
+  | c :: cs, t :: ts, f :: fs, ha, ht, hn, hd => by
+    simp only [acceptsZip, hasTypes, noDynList, dimsTuple, fitsTuple, Bool.and_eq_true] at ha ht hn hd ⊢
+    exact ⟨accepts_fits c t f ha.1 ht.1 hn.1 hd.1, acceptsZip_fits cs ts fs ha.2 ht.2 hn.2 hd.2⟩
+end
+
 end ScyllaVerif.Proofs.CarrierStatic
